@@ -239,6 +239,13 @@ def r_trunc_radius(ctx: RuleCtx, col: Collector):
             trunc.add(n.targets[0].id)
     if not trunc:
         raise AnalysisError("DensityFilter._calculate_h: truncated radius (window half-width) not found")
+    for n in ast.walk(f.node):
+        if isinstance(n, ast.Assign) and isinstance(n.targets[0], ast.Name) and n.targets[0].id in trunc:
+            extra = _names(n.value) - {"radius", "int", "np", "math"}
+            if extra and any(isinstance(x, ast.Call) and norm(x.func) in ("min", "np.minimum", "np.min", "np.clip") for x in ast.walk(n.value)):
+                col.bad(where_of(f), f.rel, line_of(n), stmt_key(n),
+                        f"the one half-width used for all directions is clamped with {sorted(extra)}: a domain that is narrow in one "
+                        f"direction shrinks the window in the long directions too, dropping neighbours within the radius")
     tr = _dependent_names(f.node, set(trunc))
     # distance names: locals built from differences of coordinates
     bad = False
@@ -987,7 +994,26 @@ def r_gs_rank(ctx: RuleCtx, col: Collector):
                                 exact = True
                             else:
                                 rel = True
-        if rel:
+        # the reference is the norm of the *same* vector before orthogonalisation
+        wrong_ref = None
+        vec = None
+        for d in ast.walk(g.node):
+            if isinstance(d, ast.Assign) and isinstance(d.targets[0], ast.Name) and d.targets[0].id == nn and isinstance(d.value, ast.Call) \
+                    and norm(d.value.func).endswith("norm") and d.value.args:
+                vec = norm(d.value.args[0])
+        if rel and vec is not None:
+            for t in tests:
+                for nm in _names(t.test) - {nn}:
+                    for d in ast.walk(g.node):
+                        if isinstance(d, ast.Assign) and isinstance(d.targets[0], ast.Name) and d.targets[0].id == nm and \
+                                isinstance(d.value, ast.Call) and norm(d.value.func).endswith("norm") and d.value.args and \
+                                norm(d.value.args[0]) != vec:
+                            wrong_ref = (nm, norm(d.value.args[0]))
+        if rel and wrong_ref is not None:
+            col.bad(where_of(g), g.rel, line_of(tests[0]), construct,
+                    f"the remainder norm of '{vec}' is compared with '{wrong_ref[0]}', the norm of a different vector ('{wrong_ref[1]}'): "
+                    f"the test is not scale invariant (for a badly scaled matrix nothing is ever stored, or noise is)")
+        elif rel:
             col.ok(where_of(g), g.rel, line_of(tests[0]), construct, "compared against a scaled reference / tolerance")
         elif exact:
             col.bad(where_of(g), g.rel, line_of(tests[0]), construct,
@@ -1162,13 +1188,14 @@ def r_alloc_dtype(ctx: RuleCtx, col: Collector):
     right-hand side / prescribed value / stored solution.  In _sensitivity only data remembered from the response is
     considered (the seeds follow the state's type by convention)."""
     m = ctx.model
-    for c in _linsys_modules(ctx):
+    for c in [k for k in m.module_classes() if m.resolve_method(k, '_response') is not None and m.resolve_method(k, '_response').cls is not m.module_base()]:
         resp = m.resolve_method(c, "_response")
         selfn = m.self_name(resp)
         rparams = set(resp.pos_params()) | ({resp.vararg()} if resp.vararg() else set())
         # attributes written by the response closure and what they depend on
         attr_deps: Dict[str, Set[str]] = {}
         attr_alloc: Dict[str, Tuple[Set[str], bool]] = {}
+        prep_alloc: Dict[str, ast.AST] = {}
         for g in m.closure(c, "_response"):
             sg = m.self_name(g)
             gp = set(g.pos_params()) if g is resp else set()
@@ -1185,6 +1212,16 @@ def r_alloc_dtype(ctx: RuleCtx, col: Collector):
                                 for ex in al[0]:
                                     srcs |= of(ex)
                                 attr_alloc[t.attr] = (srcs, al[1])
+        prep = m.resolve_method(c, "_prepare")
+        if prep is not None and prep.cls is not m.module_base():
+            sp = m.self_name(prep)
+            for n in ast.walk(prep.node):
+                if isinstance(n, ast.Assign) and len(n.targets) == 1 and isinstance(n.targets[0], ast.Attribute) and \
+                        isinstance(n.targets[0].value, ast.Name) and n.targets[0].value.id == sp:
+                    al = _alloc_sources(n.value)
+                    if al is not None and n.targets[0].attr not in attr_alloc:
+                        attr_alloc[n.targets[0].attr] = (set(), al[1])       # typed from configuration only
+                        prep_alloc[n.targets[0].attr] = n
         for name in ("_response", "_sensitivity"):
             f = m.resolve_method(c, name)
             if f is None or f.cls is not c:
@@ -1193,7 +1230,11 @@ def r_alloc_dtype(ctx: RuleCtx, col: Collector):
             params = rparams if name == "_response" else set()
             deps = _param_deps(f.node, params, sf, attr_deps if name == "_sensitivity" else {}, rparams)
             of = deps["__of__"]
+            seed_params = set(f.pos_params()) | ({f.vararg()} if f.vararg() else set()) if name == "_sensitivity" else set()
             allocs: Dict[str, Tuple[Set[str], bool, ast.AST]] = {}
+            if name == "_response":
+                for a_, n_ in prep_alloc.items():
+                    allocs[f"{sf}.{a_}"] = (set(), attr_alloc[a_][1], n_)
 
             def key_of(t):
                 if isinstance(t, ast.Name):
@@ -1211,6 +1252,8 @@ def r_alloc_dtype(ctx: RuleCtx, col: Collector):
                             for x in ast.walk(ex):
                                 if isinstance(x, ast.Name) and x.id in allocs:
                                     srcs |= allocs[x.id][0]
+                                elif isinstance(x, ast.Name) and name == "_sensitivity" and x.id in seed_params:
+                                    srcs |= rparams          # a seed has the type of the output state (convention)
                                 elif isinstance(x, ast.Name) and x.id in deps:
                                     srcs |= deps[x.id]
                                 elif isinstance(x, ast.Attribute) and isinstance(x.value, ast.Name) and x.value.id == sf:
